@@ -312,7 +312,27 @@ type kase struct {
 	accepted                       bool
 	notifyState                    int
 	harness                        string
+
+	// families.go: the peer set in force for this header when it was delivered (nil: the
+	// genesis set sc.stored), the key height it was stored under, and what led up to the case
+	set       []keypair.PublicKey
+	keyHeight uint32
+	family    string
+	class     string
+	announces []int // universe indexes of the peer set a configuration-change header announces
+	history   []string
+	noBuiltD  bool
 }
+
+// peerSet is the oracle's peer set for the case.
+func (k *kase) peerSet() []keypair.PublicKey {
+	if k.set != nil {
+		return k.set
+	}
+	return k.sc.stored
+}
+func (k *kase) n() int { return len(k.peerSet()) }
+func (k *kase) q() int { return (2*k.n() + 2) / 3 }
 
 func idOf(pk keypair.PublicKey) string { return vconfig.PubkeyID(pk) }
 
@@ -351,9 +371,16 @@ type syncGenesisHeaderArgs struct {
 }
 
 func buildCase(sc *sideChain, sh shape, rng *vf.RNG, idx int, height uint32, w *chain.World) *kase {
-	k := &kase{idx: idx, sc: sc, shape: sh.name, height: height}
 	ks, sg := sh.gen(rng, sc)
-	payload, _ := json.Marshal(&vconfig.VbftBlockInfo{Proposer: uint32(rng.Intn(sc.n) + 1), VrfValue: rng.Bytes(64), VrfProof: rng.Bytes(64), LastConfigBlockNum: 0})
+	return buildHeaderCase(sc, sh.name, ks, sg, nil, rng, idx, height, w)
+}
+
+// buildHeaderCase makes one syncBlockHeader transaction carrying one header of chain sc at the
+// given height with the given bookkeeper and signature lists; newCfg != nil makes it a
+// configuration-change header announcing a new peer set.
+func buildHeaderCase(sc *sideChain, name string, ks []keyRef, sg []sigRef, newCfg *vconfig.ChainConfig, rng *vf.RNG, idx int, height uint32, w *chain.World) *kase {
+	k := &kase{idx: idx, sc: sc, shape: name, height: height}
+	payload, _ := json.Marshal(&vconfig.VbftBlockInfo{Proposer: uint32(rng.Intn(sc.n) + 1), VrfValue: rng.Bytes(64), VrfProof: rng.Bytes(64), LastConfigBlockNum: 0, NewChainConfig: newCfg})
 	h := &cccom.Header{Version: 0, ChainID: sc.id, Timestamp: 1600000000 + height, Height: height, ConsensusData: rng.U64(), ConsensusPayload: payload}
 	copy(h.PrevBlockHash[:], rng.Bytes(32))
 	copy(h.TransactionsRoot[:], rng.Bytes(32))
@@ -429,7 +456,8 @@ func (k *kase) judge() {
 		return
 	}
 	idx := map[string]int{}
-	for i, pk := range k.sc.stored {
+	set := k.peerSet()
+	for i, pk := range set {
 		idx[idOf(pk)] = i
 	}
 	seen := map[string]bool{}
@@ -456,7 +484,7 @@ func (k *kase) judge() {
 			sigs = append(sigs, s)
 		}
 	}
-	for i, pk := range k.sc.stored {
+	for i, pk := range set {
 		for _, s := range sigs {
 			if signature.Verify(pk, dh[:], s) == nil {
 				k.validSigners = append(k.validSigners, i)
@@ -516,9 +544,35 @@ func txState(c *chain.Chain, tx *types.Transaction) int {
 	return int(n.State)
 }
 
+// observe reads the outcome of a committed case: acceptance from the committed header index of
+// the chain/height (cross-checked with the stored header bytes and the transaction's state).
+func observe(c *chain.Chain, k *kase) {
+	sc := k.sc
+	k.notifyState = txState(c, k.tx)
+	idxKey := storageKey(header_sync.HEADER_INDEX, sc.id, u32(k.height))
+	v, err := getItem(c, idxKey)
+	if err != nil {
+		k.harness = "GetStorageItem: " + err.Error()
+		return
+	}
+	k.accepted = v != nil && bytes.Equal(v, k.hash.ToArray())
+	if v != nil && !k.accepted {
+		k.harness = "header index holds a different hash"
+	}
+	if k.accepted {
+		hv, _ := getItem(c, storageKey(header_sync.BLOCK_HEADER, sc.id, k.hash.ToArray()))
+		if !bytes.Equal(hv, k.wire) {
+			k.harness = "header index set but stored header bytes differ"
+		}
+	}
+	if k.accepted != (k.notifyState == int(event.CONTRACT_STATE_SUCCESS)) {
+		k.harness = fmt.Sprintf("committed state says accepted=%v but the transaction's notify state is %d", k.accepted, k.notifyState)
+	}
+}
+
 func main() {
 	r := vf.NewRun("C33", "exploration",
-		"solo ledger; per side chain (n in {4,7,10,40} generated peers, several chains per n) a syncGenesisHeader tx signed by the operator, then one syncBlockHeader invoke tx per case carrying one forged header at its own height with Bookkeepers/SigData from 18 list shapes (honest, permuted, surplus sigs, below 2/3, one peer repeated k>=2n/3 times with repeated or fresh signatures, A,B + duplicates, few + duplicates, 2/3 distinct + duplicates, listed but few signing, one signature repeated, padded, non-peers listed/padding/signing, other hash, garbage, empty, random mix); acceptance read from the committed header index; distinct by (n, shape, key list, signature list)")
+		"solo ledger; per side chain (n in {4,7,10,40} generated peers, several chains per n) a syncGenesisHeader tx signed by the operator, then one syncBlockHeader invoke tx per case carrying one forged header at its own height with Bookkeepers/SigData from 18 list shapes (honest, permuted, surplus sigs, below 2/3, one peer repeated k>=2n/3 times with repeated or fresh signatures, A,B + duplicates, few + duplicates, 2/3 distinct + duplicates, listed but few signing, one signature repeated, padded, non-peers listed/padding/signing, other hash, garbage, empty, random mix); plus three systematic families (families.go): quorum-sweep = side chains of every size n=1..13 with exactly q-1, q, q+1 distinct valid signers in 4 list layouts; duplicate-layouts = distinct bookkeepers with a signature list given by a function position->signer, every function for n<=4 and sampled ones (copies at/ahead of/behind the signer's own index) for n=4..13; config-change = side chains with 2 or 3 peer-set changes whose change headers are delivered in every order, every height interval probed before and after each delivery with headers signed by two thirds of each known peer set, the oracle's peer set being the one stored under the greatest key height below the header's height at delivery time; acceptance read from the committed header index; distinct by (family, chain, n, shape, key list, signature list)")
 	scratch := vf.Scratch("c33")
 	defer os.RemoveAll(scratch)
 	rng := vf.NewRNG(vf.Seed())
@@ -641,31 +695,15 @@ func main() {
 					if k.harness != "" {
 						continue
 					}
-					k.notifyState = txState(c, k.tx)
-					idxKey := storageKey(header_sync.HEADER_INDEX, sc.id, u32(k.height))
-					v, err := getItem(c, idxKey)
-					if err != nil {
-						k.harness = "GetStorageItem: " + err.Error()
-						continue
-					}
-					k.accepted = v != nil && bytes.Equal(v, k.hash.ToArray())
-					if v != nil && !k.accepted {
-						k.harness = "header index holds a different hash"
-					}
-					if k.accepted {
-						hv, _ := getItem(c, storageKey(header_sync.BLOCK_HEADER, sc.id, k.hash.ToArray()))
-						if !bytes.Equal(hv, k.wire) {
-							k.harness = "header index set but stored header bytes differ"
-						}
-					}
-					if k.accepted != (k.notifyState == int(event.CONTRACT_STATE_SUCCESS)) {
-						k.harness = fmt.Sprintf("committed state says accepted=%v but the transaction's notify state is %d", k.accepted, k.notifyState)
-					}
+					observe(c, k)
 				}
 				all = append(all, ks...)
 			}
 		}
 	}
+	fam := runFamilies(r, c, w, rng.Sub(0xFA3117), tag, &blockNo)
+	all = append(all, fam...)
+	r.Extra("family_cases", len(fam))
 	r.Extra("side_chains", chainNo)
 	r.Extra("ledger_blocks", c.Ledger.GetCurrentBlockHeight())
 
@@ -681,18 +719,27 @@ func main() {
 			continue
 		}
 		fp := fmt.Sprintf("%d/%s/%s/%s", k.sc.n, k.shape, strings.Join(k.keys, ","), strings.Join(k.sigs, ","))
+		if k.family != "" {
+			fp = fmt.Sprintf("%s/%d/%s/%s", k.family, k.sc.id, k.class, fp)
+		}
 		if len(k.keys) == 0 && len(k.sigs) == 0 {
 			fp = ""
 		}
 		r.Eval(fp)
 		r.Count("shape/" + k.shape)
-		r.Count(fmt.Sprintf("n=%d", k.sc.n))
-		if k.builtD != k.D {
+		if k.family == "" {
+			r.Count(fmt.Sprintf("n=%d", k.sc.n))
+		} else {
+			countFamily(r, k)
+		}
+		if k.noBuiltD {
+			// the signer lists of these cases are chosen before the peer set in force is known
+		} else if k.builtD != k.D {
 			r.Inconclusive(fmt.Sprintf("harness: n=%d case %d (%s): oracle D=%d, list built with %d valid peer signers", k.sc.n, k.idx, k.shape, k.D, k.builtD))
 		} else {
 			r.Count("oracle_D_equals_constructed_D")
 		}
-		n, q := k.sc.n, k.sc.q
+		n, q := k.n(), k.q()
 		enough := k.D*3 >= n*2
 		switch {
 		case k.accepted && enough:
@@ -710,6 +757,9 @@ func main() {
 			}
 			if k.nonPeerListed {
 				key += ",non-peer-listed"
+			}
+			if k.keyHeight != 0 {
+				key += ",peer-set-of-later-key-height"
 			}
 			viols = append(viols, viol{key: key, k: k,
 				what: fmt.Sprintf("syncBlockHeader stored a header for side chain %d (n=%d stored peers) whose %d listed keys contain only %d distinct peers and whose signatures verify for only %d distinct peers (3*%d < 2*%d); shape %s", k.sc.id, n, k.listedLen, k.listedDistinctPeers, k.D, k.D, n, k.shape)})
@@ -740,15 +790,20 @@ func main() {
 	})
 	for _, v := range viols {
 		k := v.k
-		var stored []string
+		var stored, inForce []string
 		for _, pk := range k.sc.stored {
 			stored = append(stored, idOf(pk))
 		}
+		for _, pk := range k.peerSet() {
+			inForce = append(inForce, idOf(pk))
+		}
 		r.Violation(v.key, v.what, map[string]interface{}{
-			"n": k.sc.n, "required_distinct_signers": k.sc.q, "chainID": k.sc.id, "height": k.height, "shape": k.shape, "case_index": k.idx,
-			"peers":                          fmt.Sprintf("chain.DetAccount(\"%s/peer<i>\"), i<n; outsiders …/outsider<i>", k.sc.tag),
-			"stored_peer_ids":                stored,
-			"bookkeepers(p=peer,o=outsider)": k.keys,
+			"n": k.n(), "required_distinct_signers": k.q(), "chainID": k.sc.id, "height": k.height, "shape": k.shape, "case_index": k.idx,
+			"peers":                 fmt.Sprintf("chain.DetAccount(\"%s/peer<i>\"), i<n; outsiders …/outsider<i>", k.sc.tag),
+			"stored_peer_ids":       stored,
+			"peer_set_in_force_ids": inForce, "peer_set_in_force_key_height": k.keyHeight,
+			"family": k.family, "class": k.class, "steps_before_this_header(same chain, in order)": k.history,
+			"bookkeepers(p=peer,o=outsider)":                   k.keys,
 			"sigdata(#j=another signature of the same signer)": k.sigs,
 			"listed_len": k.listedLen, "listed_distinct_peers": k.listedDistinctPeers,
 			"D_distinct_peers_with_valid_signature": k.D, "valid_signer_indices(sorted stored ids)": k.validSigners,
@@ -768,6 +823,7 @@ func main() {
 	for _, n := range []int{4, 7, 10, 40} {
 		r.Require(fmt.Sprintf("n=%d", n), 100)
 	}
+	requireFamilies(r)
 	r.Require("side_chain_genesis_synced", 3)
 	r.Require("genesis_from_non_operator_rejected", 3)
 	r.Require("shape/honest/accepted", 9)
@@ -780,7 +836,7 @@ func main() {
 	r.Require("rejected_with_3D<2n", 20)
 	r.Require("oracle_D_equals_constructed_D", int64(total/3*3))
 	r.Extra("exhaustive", false)
-	r.Assume("peer set = what syncGenesisHeader stored (read back from committed state); forged headers carry no new chain config, so the genesis peer set governs every height; D counts a stored peer when ANY signature of SigData verifies for its key over the header hash")
+	r.Assume("peer set = what syncGenesisHeader stored (read back from committed state); the forged headers of the list shapes, quorum-sweep and duplicate-layouts carry no new chain config, so the genesis peer set governs every height; in the config-change family the peer set in force for height h is the one the contract stored (read back) under the greatest key height < h among the change headers accepted before the case was delivered; D counts a stored peer when ANY signature of SigData verifies for its key over the header hash")
 	r.Assume("syncGenesisHeader needs the witness of the param-contract operator; on a solo ledger genesis makes the single bookkeeper that operator")
 	c.Close()
 	os.RemoveAll(scratch)
